@@ -128,7 +128,29 @@ impl PanicInfo {
     pub fn signature(&self) -> String {
         let mut msg = String::new();
         let mut last_digit = false;
-        for c in self.message.chars().take(120) {
+        // Quoted material (`...`, '...') in a panic message is usually a copy of the input: drop it,
+        // so that one panic site gives one signature.
+        let mut stripped = String::new();
+        let mut quote: Option<char> = None;
+        for c in self.message.chars() {
+            match quote {
+                Some(q) if c == q => {
+                    quote = None;
+                    stripped.push(c);
+                }
+                Some(_) => {}
+                None => {
+                    if c == '`' || c == '\'' {
+                        quote = Some(c);
+                        stripped.push(c);
+                        stripped.push('…');
+                    } else {
+                        stripped.push(c);
+                    }
+                }
+            }
+        }
+        for c in stripped.chars().take(120) {
             if c.is_ascii_digit() {
                 if !last_digit {
                     msg.push('N');
